@@ -90,6 +90,7 @@ pub enum M {
     OwnDeepPoll,
     OwnPollMulti,
     OwnOptMulti,
+    OwnUnit,
     /// std::process::Termination::report as a mocked method (mock-std)
     TermReport,
 }
@@ -182,6 +183,7 @@ pub const ALL_M: &[M] = &[
     M::OwnDeepPoll,
     M::OwnPollMulti,
     M::OwnOptMulti,
+    M::OwnUnit,
     M::TermReport,
 ];
 
@@ -253,6 +255,7 @@ impl M {
             M::OwnDeepPoll => ("Own", "own_deep_poll", false, false, false, Recv::Ref, false),
             M::OwnPollMulti => ("Own", "own_poll_multi", false, false, false, Recv::Ref, false),
             M::OwnOptMulti => ("Own", "own_opt_multi", false, false, false, Recv::Ref, false),
+            M::OwnUnit => ("Own", "own_unit", false, false, false, Recv::Ref, false),
             M::TermReport => ("Termination", "report", false, false, false, Recv::Val, false),
         };
         MInfo {
@@ -435,6 +438,8 @@ pub enum Special {
     OwnPollMulti { quant: Quant, id: u32 },
     /// each_call(_).returns(Some(Err(TrackedC))) with a multi-use quantifier (Deep Option layer)
     OwnOptMulti { quant: Quant, id: u32 },
+    /// some_call(_).returns(()): a single-use response of a method that returns nothing
+    OwnUnit { id: u32 },
     /// TerminationMock::report.each_call(matching!()).returns(SUCCESS / FAILURE): report() hands out
     /// the mocked code; the instance is verified when it is dropped at the end of report()
     MockedReport { success: bool },
@@ -444,6 +449,10 @@ pub enum Special {
 pub enum Fault {
     /// the matcher of the pattern with this uid panics whenever invoked during the call
     MatcherPanic { uid: u16 },
+    /// the same booby trap on a matcher that has no business being evaluated for this call: a pattern
+    /// declared after the first accepting one (unordered), or any pattern but the owner of the current
+    /// slot (ordered). It must never go off.
+    MatcherMustNotRun { uid: u16 },
     /// the n-th user program invoked during this call panics after `pos` nested calls
     ProgPanic { nth: u8, pos: u8 },
     /// Clone of a multi-use return value panics
@@ -506,6 +515,15 @@ pub enum Op {
     /// destructor drops and thereby verifies it - all expectations met)
     FreshThreads {
         kind: u8,
+    },
+    /// `n` calls of `m(x)` in a row through the instance in `slot`, as one scheduling unit and without a
+    /// record per call: the result is the run-length encoding of what came back (scale: tens of
+    /// thousands of matches of one pattern)
+    CallStorm {
+        slot: u8,
+        m: M,
+        x: u8,
+        n: u32,
     },
     /// clone the instance in `slot` `n` times, dropping every clone at once (scale: tens of thousands
     /// of clones over the life of one mock)
@@ -627,6 +645,7 @@ pub enum OwnKind {
     DeepPoll,
     PollMulti,
     OptMulti,
+    Unit,
 }
 
 #[derive(Serialize, Deserialize, Clone, Copy, Debug, PartialEq, Eq, Hash)]
